@@ -1037,7 +1037,13 @@ pub const STRS: [&str; 49] = [
     "x\u{1}y", "x\u{85}y", "x\u{2028}y", "'", "\"", "\\", "a'b\"c", "C:\\x", "*a", "&a", "!a", "[a]", "{a}", "a,b", "|", ">", "%a", "@a", "`a", "---", "...", "a b c", "x\ny\n",
 ];
 
-pub const KEYS: [&str; 15] = ["a b", "", "true", "12", "a: b", "é", "- a", "#a", "'", "k\"", "*a", "? a", "a\nb", "a,b", "null"];
+pub const KEYS: [&str; 19] = [
+    "a b", "", "true", "12", "a: b", "é", "- a", "#a", "'", "k\"", "*a", "? a", "a\nb", "a,b", "null",
+    // keys whose double-quoted spelling ends in an escape right before the closing quote (`"\\"`, `"C:\\"`,
+    // `"x\\\""`) or starts with one: a scanner that decides "escaped quote" by looking at the previous byte only
+    // misreads where the key ends
+    "\\", "C:\\", "x\\\"", "\"q",
+];
 
 pub const KEY_NAMES: [&str; 5] = ["k", "j", "i", "m", "n"];
 
@@ -1254,6 +1260,9 @@ fn opt(step: usize, forms: Forms, comments: bool, inter: u8) -> Opts {
 pub fn key_trees() -> Vec<Node> {
     let mut v: Vec<Node> = KEYS.iter().map(|k| Node::Map(vec![(k.to_string(), Node::Int(1))])).collect();
     v.extend(KEYS.iter().map(|k| Node::Map(vec![(k.to_string(), Node::Null), ("j".to_string(), Node::s("a"))])));
+    // the special key as a *later* entry of the mapping, and below another key
+    v.extend(KEYS.iter().map(|k| Node::Map(vec![("j".to_string(), Node::Int(1)), (k.to_string(), Node::Int(2))])));
+    v.extend(KEYS.iter().map(|k| Node::Map(vec![("j".to_string(), Node::Map(vec![(k.to_string(), Node::s("a")), ("i".to_string(), Node::Int(1))]))])));
     v
 }
 
@@ -1271,7 +1280,7 @@ pub fn plan(quick: bool) -> Vec<Space> {
     t12.extend(key_trees());
     v.push(Space {
         name: "styles/n<=2",
-        what: format!("all trees with <= 2 nodes over the full leaf alphabet ({} leaves) + {} special-key mappings; every scalar/key/collection style; every wrapper; LF/CRLF/CR", full.len(), KEYS.len() * 2),
+        what: format!("all trees with <= 2 nodes over the full leaf alphabet ({} leaves) + {} special-key mappings; every scalar/key/collection style; every wrapper; LF/CRLF/CR", full.len(), KEYS.len() * 4),
         trees: t12,
         opts: vec![Opts::full()],
         wraps: all_w.clone(),
